@@ -367,4 +367,224 @@ theorem elFinish_correct (neg : Bool) (n d : ℕ) (hn : n ≠ 0) (hd : d ≠ 0) 
   obtain ⟨R, E1, hR, hRlo, hRhi, hE1, hQR, hexR⟩ := el_R n d hi lo t hhi hhi' hmsb hQ hTie
   exact el_round neg n d hn hd hi lo t bits ht ht' hmsb R E1 hR hRlo hRhi hE1 hQR hexR h
 
+/-! ## the table row and the value, as rationals -/
+
+theorem zpow_split (a : ℚ) (ha : 0 < a) (z : ℤ) :
+    a ^ z = ((if z ≥ 0 then a ^ z.toNat else 1) : ℚ) / (if z ≥ 0 then 1 else a ^ (-z).toNat) := by
+  by_cases hz : z ≥ 0
+  · simp only [hz, if_true, div_one]
+    rw [← zpow_natCast, Int.toNat_of_nonneg hz]
+  · simp only [hz, if_false]
+    obtain ⟨m, rfl⟩ : ∃ m : ℕ, z = -(m : ℤ) := ⟨(-z).toNat, by rw [Int.toNat_of_nonneg (by omega)]; ring⟩
+    rw [zpow_neg, zpow_natCast]
+    simp
+
+/-- the scaled power of ten a table row is the floor of -/
+theorem scaledPow10_spec (q e : ℤ) :
+    ((C04.scaledPow10 q e : ℕ) : ℚ) ≤ (10 : ℚ) ^ q * 2 ^ e ∧ (10 : ℚ) ^ q * 2 ^ e < ((C04.scaledPow10 q e : ℕ) : ℚ) + 1 := by
+  simp only [C04.scaledPow10]
+  generalize hnum : ((if q ≥ 0 then 10 ^ q.toNat else 1) * (if e ≥ 0 then 2 ^ e.toNat else 1) : ℕ) = num
+  generalize hden : ((if q ≥ 0 then 1 else 10 ^ (-q).toNat) * (if e ≥ 0 then 1 else 2 ^ (-e).toNat) : ℕ) = den
+  have hdpos : 0 < den := by
+    rw [← hden]
+    apply Nat.mul_pos <;> split <;> positivity
+  have hval : (10 : ℚ) ^ q * 2 ^ e = (num : ℚ) / den := by
+    rw [zpow_split 10 (by norm_num) q, zpow_split 2 (by norm_num) e, ← hnum, ← hden]
+    push_cast
+    by_cases hq : q ≥ 0 <;> by_cases he : e ≥ 0 <;> simp only [hq, he, if_true, if_false] <;> field_simp
+  have hdQ : (0 : ℚ) < den := by exact_mod_cast hdpos
+  rw [hval]
+  have hdm := Nat.div_add_mod num den
+  have hr := Nat.mod_lt num hdpos
+  have hdmQ : (num : ℚ) = den * ((num / den : ℕ) : ℚ) + ((num % den : ℕ) : ℚ) := by
+    have h2 : ((den * (num / den) + num % den : ℕ) : ℚ) = (num : ℚ) := by exact_mod_cast congrArg (Nat.cast (R := ℚ)) hdm
+    push_cast at h2; linarith
+  have hrQ : ((num % den : ℕ) : ℚ) < den := by exact_mod_cast hr
+  have hr0 : (0 : ℚ) ≤ ((num % den : ℕ) : ℚ) := by positivity
+  constructor
+  · rw [le_div_iff₀ hdQ]; nlinarith
+  · rw [div_lt_iff₀ hdQ]; nlinarith
+
+/-- normalising the mantissa -/
+theorem normalize_man (man : ℕ) (h0 : man ≠ 0) (h64 : man < 2 ^ 64) :
+    clz64 man = 63 - Nat.log2 man ∧ Nat.log2 man ≤ 63 ∧ (man <<< clz64 man) % two64 = man * 2 ^ (63 - Nat.log2 man) ∧
+      2 ^ 63 ≤ man * 2 ^ (63 - Nat.log2 man) ∧ man * 2 ^ (63 - Nat.log2 man) < 2 ^ 64 := by
+  have hL : Nat.log2 man ≤ 63 := by
+    have := (Nat.log2_lt h0 (k := 64)).mpr h64
+    omega
+  have hc : clz64 man = 63 - Nat.log2 man := by
+    have : (man == 0) = false := by simpa using h0
+    simp [clz64, this]
+  have h1 := Nat.log2_self_le h0
+  have h2 := Nat.lt_log2_self (n := man)
+  have hp : 2 ^ Nat.log2 man * 2 ^ (63 - Nat.log2 man) = 2 ^ 63 := by
+    rw [← Nat.pow_add]; congr 1; omega
+  have hp2 : 2 ^ (Nat.log2 man + 1) * 2 ^ (63 - Nat.log2 man) = 2 ^ 64 := by
+    rw [← Nat.pow_add]; congr 1; omega
+  have hlo : 2 ^ 63 ≤ man * 2 ^ (63 - Nat.log2 man) := by
+    rw [← hp]; exact Nat.mul_le_mul_right _ h1
+  have hhi : man * 2 ^ (63 - Nat.log2 man) < 2 ^ 64 := by
+    rw [← hp2]; exact Nat.mul_lt_mul_of_pos_right h2 (by positivity)
+  refine ⟨hc, hL, ?_, hlo, hhi⟩
+  rw [hc, Nat.shiftLeft_eq]
+  exact Nat.mod_eq_of_lt hhi
+
+/-- `roundDec` away from its two shortcuts is `roundRat` of `man · 10^q` -/
+theorem roundDec_eq (neg : Bool) (man : ℕ) (q : ℤ) (h0 : man ≠ 0) (hq1 : q ≤ 400) (hq2 : -400 ≤ q + (Nat.log2 man : ℤ) + 1) :
+    ∃ n d : ℕ, n ≠ 0 ∧ d ≠ 0 ∧ roundDec neg man q = roundRat neg n d ∧ (n : ℚ) / d = (man : ℚ) * 10 ^ q := by
+  have hm0 : (man == 0) = false := by simpa using h0
+  have c1 : ¬ q > 400 := by omega
+  have c2 : ¬ q + (Nat.log2 man : ℤ) + 1 < -400 := by omega
+  by_cases hq : q ≥ 0
+  · refine ⟨man * 10 ^ q.toNat, 1, ?_, by omega, ?_, ?_⟩
+    · exact Nat.mul_ne_zero h0 (by positivity)
+    · simp only [roundDec, hm0, Bool.false_eq_true, if_false, c1, c2, pow10Rat, hq, if_true]
+    · push_cast
+      rw [zpow_split 10 (by norm_num) q]
+      simp [hq]
+  · refine ⟨man * 1, 10 ^ (-q).toNat, ?_, by positivity, ?_, ?_⟩
+    · simpa using h0
+    · simp only [roundDec, hm0, Bool.false_eq_true, if_false, c1, c2, pow10Rat, hq]
+    · push_cast
+      rw [zpow_split 10 (by norm_num) q]
+      simp [hq]
+      ring
+
+theorem pow10Row_bounds (i : ℕ) : (pow10Row i).1 < 2 ^ 64 ∧ (pow10Row i).2 < 2 ^ 64 ∧
+    C04.rowValue i = (pow10Row i).2 * 2 ^ 64 + (pow10Row i).1 := by
+  simp only [pow10Row, C04.rowValue, two64]
+  refine ⟨Nat.mod_lt _ (by norm_num), ?_, by norm_num⟩
+  have : (Gen.pow10Tab >>> (128 * i)) % 2 ^ 128 < 2 ^ 128 := Nat.mod_lt _ (by positivity)
+  omega
+
+set_option maxRecDepth 100000 in
+/-- **Eisel-Lemire is correctly rounded whenever it answers** -/
+theorem eisel_correct (man : ℕ) (q : ℤ) (neg : Bool) (bits : ℕ) (hman : man < 2 ^ 64)
+    (h : eiselLemire64 man q neg = some bits) : roundDec neg man q = (bits, false) := by
+  by_cases h0 : man = 0
+  · subst h0
+    simp only [eiselLemire64, beq_self_eq_true, if_true] at h
+    injection h with h
+    simp [roundDec, h]
+  · have hm0 : (man == 0) = false := by simpa using h0
+    obtain ⟨_, hmin, hmax⟩ := C04.el_table_rows
+    simp only [eiselLemire64, hm0, Bool.false_eq_true, if_false, hmin, hmax] at h
+    by_cases hrange : (decide (q < -348) || decide (347 < q)) = true
+    · rw [hrange] at h; simp only [if_true] at h; cases h
+    · simp only [hrange, Bool.false_eq_true, if_false] at h
+      have hq1 : -348 ≤ q := by
+        by_contra hh
+        apply hrange
+        have : q < -348 := by omega
+        simp [this]
+      have hq2 : q ≤ 347 := by
+        by_contra hh
+        apply hrange
+        have : 347 < q := by omega
+        simp [this]
+      obtain ⟨hclz, hL, hw, hw63, hw64⟩ := normalize_man man h0 hman
+      -- the table row
+      obtain ⟨idx, hidx, hidxlt, hqi⟩ : ∃ idx : ℕ, (q - -348).toNat = idx ∧ idx < 696 ∧ (idx : ℤ) - 348 = q :=
+        ⟨(q - -348).toNat, rfl, by omega, by omega⟩
+      rw [hidx, hw] at h
+      obtain ⟨hT127, hT128, hTval⟩ := C04.el_row_exact idx hidxlt
+      obtain ⟨hlo, hhi, hrow⟩ := pow10Row_bounds idx
+      rw [hqi] at hTval
+      generalize hrl : (pow10Row idx).1 = rowLo at h hlo hrow
+      generalize hrh : (pow10Row idx).2 = rowHi at h hhi hrow
+      have hhi63 : 2 ^ 63 ≤ rowHi := by
+        rw [hrow] at hT127
+        simp only [Nat.reducePow] at hT127 hlo ⊢
+        omega
+      generalize hwdef : man * 2 ^ (63 - Nat.log2 man) = w at h hw63 hw64
+      cases hm : elMerged w rowLo rowHi with
+      | none => rw [hm] at h; cases h
+      | some pr =>
+        obtain ⟨hi, lo⟩ := pr
+        rw [hm] at h
+        simp only [] at h
+        obtain ⟨hhi64, hlo64, hhi62, hZ, hU⟩ := elMerged_spec w rowLo rowHi hi lo hw63 hw64 hlo hhi hhi63 hm
+        rw [← hrow] at hZ hU
+        -- the value
+        obtain ⟨n, d, hn, hd, hrd, hval⟩ := roundDec_eq neg man q h0 (by omega) (by omega)
+        rw [hrd]
+        -- the exponent arithmetic
+        have hk : (217706 * q) >>> 16 = C04.k2 q := by
+          rw [Int.shiftRight_eq_div_pow]; simp [C04.k2]
+        rw [hk, hclz] at h
+        generalize hkk : C04.k2 q = k at h hTval
+        have hkb : -1200 ≤ k ∧ k ≤ 1200 := by
+          rw [← hkk]; simp only [C04.k2]; omega
+        have ht : k + 64 + 1023 - ((63 - Nat.log2 man : ℕ) : ℤ) = k + 1087 - (63 - Nat.log2 man : ℕ) := by ring
+        rw [ht] at h
+        apply elFinish_correct neg n d hn hd hi lo (k + 1087 - ((63 - Nat.log2 man : ℕ) : ℤ)) bits hhi62 hhi64 (by omega) (by omega) ?_ ?_ h
+        all_goals
+          -- common facts: P = w · 10^q · 2^(127-k), V = P · 2^(k - 127 - clz)
+          have hc := scaledPow10_spec q (127 - k)
+          rw [← hTval] at hc
+          obtain ⟨hc1, hc2⟩ := hc
+          have hwQ : (0 : ℚ) < w := by
+            have : 0 < w := by simp only [Nat.reducePow] at hw63; omega
+            exact_mod_cast this
+          have hZq : (((hi * 2 ^ 64 + lo) * 2 ^ 64 : ℕ) : ℚ) ≤ ((w * C04.rowValue idx : ℕ) : ℚ) := by exact_mod_cast hZ
+          have hUq : ((w * C04.rowValue idx + w : ℕ) : ℚ) ≤ (((hi / 512 + 1) * 2 ^ 137 : ℕ) : ℚ) := by exact_mod_cast hU
+          push_cast at hZq hUq
+          have hmanw : (man : ℚ) = (w : ℚ) * 2 ^ (-((63 - Nat.log2 man : ℕ) : ℤ)) := by
+            rw [← hwdef]; push_cast
+            rw [zpow_neg, zpow_natCast]
+            field_simp
+          have hE : (2 : ℚ) ^ (k + 1087 - ((63 - Nat.log2 man : ℕ) : ℤ) - 1077) =
+              2 ^ (137 : ℤ) * (2 ^ (-(127 - k)) * 2 ^ (-((63 - Nat.log2 man : ℕ) : ℤ))) := by
+            rw [← zpow_add₀ (by norm_num), ← zpow_add₀ (by norm_num)]
+            congr 1; ring
+          have hV : (n : ℚ) / d = ((w : ℚ) * ((10 : ℚ) ^ q * 2 ^ (127 - k))) * (2 ^ (-(127 - k)) * 2 ^ (-((63 - Nat.log2 man : ℕ) : ℤ))) := by
+            rw [hval, hmanw]
+            have : (2 : ℚ) ^ (127 - k) * 2 ^ (-(127 - k)) = 1 := by
+              rw [← zpow_add₀ (by norm_num)]; simp
+            calc (w : ℚ) * 2 ^ (-((63 - Nat.log2 man : ℕ) : ℤ)) * 10 ^ q
+                = (w : ℚ) * 10 ^ q * ((2 : ℚ) ^ (127 - k) * 2 ^ (-(127 - k))) * 2 ^ (-((63 - Nat.log2 man : ℕ) : ℤ)) := by
+                  rw [this]; ring
+              _ = _ := by ring
+          have hSpos : (0 : ℚ) < 2 ^ (-(127 - k)) * 2 ^ (-((63 - Nat.log2 man : ℕ) : ℤ)) := by positivity
+          generalize hS : (2 : ℚ) ^ (-(127 - k)) * 2 ^ (-((63 - Nat.log2 man : ℕ) : ℤ)) = S at hE hV hSpos
+          generalize hcc : (10 : ℚ) ^ q * 2 ^ (127 - k) = c at hc1 hc2 hV
+          have hP1 : ((hi / 512 : ℕ) : ℚ) * 2 ^ (137 : ℤ) ≤ (w : ℚ) * c := by
+            have h512 : ((hi / 512 : ℕ) : ℚ) * 512 ≤ (hi : ℚ) := by
+              have : hi / 512 * 512 ≤ hi := Nat.div_mul_le_self hi 512
+              exact_mod_cast this
+            have hlo0 : (0 : ℚ) ≤ (lo : ℚ) := by positivity
+            have : (w : ℚ) * (C04.rowValue idx : ℚ) ≤ (w : ℚ) * c := mul_le_mul_of_nonneg_left hc1 hwQ.le
+            have e137 : (2 : ℚ) ^ (137 : ℤ) = 512 * (2 ^ 64 * 2 ^ 64) := by norm_num
+            rw [e137]
+            nlinarith
+          have hP2 : (w : ℚ) * c < (((hi / 512 : ℕ) : ℚ) + 1) * 2 ^ (137 : ℤ) := by
+            have : (w : ℚ) * c < (w : ℚ) * ((C04.rowValue idx : ℚ) + 1) := mul_lt_mul_of_pos_left hc2 hwQ
+            have e137 : (2 : ℚ) ^ (137 : ℤ) = 2 ^ 137 := by norm_num
+            rw [e137]
+            linarith
+        · -- the quotient
+          constructor
+          · rw [hE, hV]
+            calc ((hi / 512 : ℕ) : ℚ) * (2 ^ (137 : ℤ) * S) = (((hi / 512 : ℕ) : ℚ) * 2 ^ (137 : ℤ)) * S := by ring
+              _ ≤ ((w : ℚ) * c) * S := mul_le_mul_of_nonneg_right hP1 hSpos.le
+          · rw [hE, hV]
+            calc ((w : ℚ) * c) * S < ((((hi / 512 : ℕ) : ℚ) + 1) * 2 ^ (137 : ℤ)) * S := mul_lt_mul_of_pos_right hP2 hSpos
+              _ = (((hi / 512 : ℕ) : ℚ) + 1) * (2 ^ (137 : ℤ) * S) := by ring
+        · -- an exactly representable value shows in the low bits
+          intro hex
+          rw [hE, hV] at hex
+          have hPe : (w : ℚ) * c = ((hi / 512 : ℕ) : ℚ) * 2 ^ (137 : ℤ) := by
+            have : ((w : ℚ) * c) * S = (((hi / 512 : ℕ) : ℚ) * 2 ^ (137 : ℤ)) * S := by rw [hex]; ring
+            exact mul_right_cancel₀ hSpos.ne' this
+          -- (hi·2^64 + lo)·2^64 ≤ w·T ≤ P = (hi/512)·2^137
+          have hchain : (((hi * 2 ^ 64 + lo) * 2 ^ 64 : ℕ) : ℚ) ≤ (((hi / 512) * 2 ^ 137 : ℕ) : ℚ) := by
+            have : (w : ℚ) * (C04.rowValue idx : ℚ) ≤ (w : ℚ) * c := mul_le_mul_of_nonneg_left hc1 hwQ.le
+            have e137 : (2 : ℚ) ^ (137 : ℤ) = 2 ^ 137 := by norm_num
+            rw [e137] at hPe
+            push_cast
+            linarith
+          have hchainN : (hi * 2 ^ 64 + lo) * 2 ^ 64 ≤ (hi / 512) * 2 ^ 137 := by exact_mod_cast hchain
+          simp only [Nat.reducePow] at hchainN
+          omega
+
 end RJson.EL
